@@ -29,6 +29,9 @@ package utxo
 //@   uses natNonneg natCanon
 //@   ensures inputs_equal_outputs: result == nil ==> sumInTo(tx, len(tx.TxInputs)) == sumOutTo(tx, len(tx.TxOutputs)) || (tx.Coinbase && sumInTo(tx, len(tx.TxInputs)) == 0)
 //@   ensures no_output_spent_twice: result == nil ==> (forall a int, b int :: 0 <= a && a < b && b < len(tx.TxInputs) ==> inKey(tx, a) != inKey(tx, b))
+// C03: an input is counted only after it was found (cache or table), its stored
+// amount equals the declared one, and it is not frozen at the current height.
+//@   at Int.Add#2 assert [C03] counted_input_exists_matches_and_is_unfrozen: recv == inputSum && amountBytes != nil && bytesEq(amountBytes, txInput.Amount) && !(frozenHeight > curLedgerHeight || frozenHeight == 0 - 1) && curLedgerHeight == uv.ledger.meta.TrunkHeight
 //@   loop 1 invariant out_sum: 0 <= $i && $i <= len(tx.TxOutputs) && sel(bigval, outputSum) == sumOutTo(tx, $i) && outputSum != nil && outputSum <= allocTop()
 //@   loop 2 invariant in_sum: 0 <= $i && $i <= len(tx.TxInputs) && sel(bigval, inputSum) == sumInTo(tx, $i) && sel(bigval, outputSum) == sumOutTo(tx, len(tx.TxOutputs)) && inputSum != nil && outputSum != nil && inputSum != outputSum && inputSum <= allocTop() && outputSum <= allocTop()
 //@   loop 2 invariant dedup: utxoDedup != nil && (forall k int :: 0 <= k && k < $i ==> in(utxoDedup, inKey(tx, k)) && utxoDedup[inKey(tx, k)]) && (forall a int, b int :: 0 <= a && a < b && b < $i ==> inKey(tx, a) != inKey(tx, b))
